@@ -52,6 +52,7 @@ class Conc:
         self.rate, self.runit, self.epoch = rate, runit, epoch
         self.cf, self.funit, self.cbw = cf, funit, cbw
         self.cplx, self.real, self.dask, self.chunks, self.extra = cplx, real, dask, chunks, tuple(extra)
+        self.assign = False
         self.name = name or "r=%g%s,ep=%s,cf=%g%s,%s" % (rate, runit, epoch and epoch.isot, cf, funit,
                                                           "dask" if dask else "np")
 
@@ -73,18 +74,24 @@ EPOCHS = [Time("2020-01-01T00:00:00", format="isot", precision=9),
 
 
 def concs(n, rnd, dask_ok=True):
-    """n seeded concretisations spanning mHz..GHz, several epochs and units."""
+    """n seeded concretisations spanning mHz..GHz, several epochs and units.  Rates, centre frequencies
+    and channel widths are taken round-robin (coprime list lengths), so that even three concretisations
+    include a zero / tiny centre frequency and a GHz-unit centre with sub-kHz channels."""
     rates = [(1, u.mHz), (1, u.Hz), (1, u.kHz), (1, u.MHz), (800 / 3, u.MHz), (2, u.GHz), (32, u.MHz), (0.5, u.Hz)]
-    cfs = [(1.4, u.GHz), (327, u.MHz), (0, u.Hz), (7, u.GHz), (150.5, u.MHz)]
-    cbws = [(0.5, u.MHz), (125, u.kHz), (1, u.Hz), (0.2, u.GHz)]
+    cfs = [(0, u.Hz), (1.4, u.GHz), (0.3, u.kHz), (327, u.MHz), (7, u.GHz), (150.5, u.MHz), (-2, u.MHz)]
+    cbws = [(100, u.Hz), (0.5, u.MHz), (125, u.kHz), (1, u.Hz), (0.2, u.GHz)]
+    off = rnd.randrange(1000)
     out = []
     for i in range(n):
         r = rates[i % len(rates)] if i < len(rates) else rnd.choice(rates)
-        c = rnd.choice(cfs)
-        b = rnd.choice(cbws)
+        c = cfs[(i + off) % len(cfs)]
+        b = cbws[(i + off // 7) % len(cbws)]
         out.append(Conc(r[0], r[1], EPOCHS[i % len(EPOCHS)], c[0], c[1], cbw=b,
                         cplx=rnd.choice(["complex128", "complex64"]), real=rnd.choice(["float64", "float32"]),
                         dask=dask_ok and (i % 3 == 2), extra=rnd.choice([(), (), (2,), (1, 3)])))
+        out[-1].assign = (i % 2 == 1)        # every other concretisation builds its root by assignment
+        if out[-1].assign:
+            out[-1].name += ",by-assignment"
     return out
 
 
@@ -99,6 +106,52 @@ def ident(n, nchan, extra):
         ex = shape[(2 if nchan else 1):]
         a += np.arange(int(np.prod(ex)), dtype=np.float64).reshape((1,) * (2 if nchan else 1) + ex)
     return a
+
+
+def by_assignment(make, kw):
+    """Builds the object with DECOY metadata, reads every derived attribute (so that any memo an
+    implementation keeps gets filled), then assigns the true values through the public setters.  With
+    correct setters the result is indistinguishable from make(**kw); state cached across assignments
+    (a stale dt, channel_freqs, ...) is what this concretisation is there to expose."""
+    decoy = dict(kw)
+    decoy["sample_rate"] = kw["sample_rate"] * 3
+    if kw.get("start_time") is not None:
+        decoy["start_time"] = kw["start_time"] + 7 * u.s
+    if "center_freq" in kw:
+        decoy["center_freq"] = kw["center_freq"] + 5 * kw["sample_rate"].to(u.Hz if kw["center_freq"].unit == u.Hz else kw["center_freq"].unit)
+    if "chan_bw" in kw:
+        decoy["chan_bw"] = kw["chan_bw"] * 2
+    decoy["meta"] = {"decoy": True}
+    z = make(**decoy)
+    for at in ("dt", "time_length", "stop_time", "channel_freqs", "min_freq", "max_freq", "bandwidth", "nchan"):
+        try:
+            getattr(z, at)
+        except AttributeError:
+            pass
+    if z.start_time is not None:
+        z.contains(z.start_time)
+    # each attribute is assigned once; the order rotates so that no setter can hide behind another one's
+    # invalidation (e.g. a label memo reset by the chan_bw setter but not by the center_freq setter)
+    global _ASSIGN_COUNT
+    _ASSIGN_COUNT += 1
+    steps = [("sample_rate", kw["sample_rate"]), ("start_time", kw.get("start_time")), ("meta", kw.get("meta"))]
+    if "center_freq" in kw:
+        # baseband classes tie chan_bw to the sample rate at construction; keep the two equal
+        steps += [("chan_bw", kw["chan_bw"] if "chan_bw" in kw else kw["sample_rate"]),
+                  ("center_freq", kw["center_freq"])]
+    k = _ASSIGN_COUNT % len(steps)
+    for name, val in steps[k:] + steps[:k]:
+        setattr(z, name, val)
+        for at in ("dt", "channel_freqs", "stop_time"):
+            getattr(z, at, None)
+    return z
+
+
+_ASSIGN_COUNT = 0
+
+
+def _unused_assign():
+    pass
 
 
 def build_root(root, conc):
@@ -128,7 +181,7 @@ def build_root(root, conc):
         # > 7 digits below one channel); absurd pairings like a 1 mHz band at 327 MHz are replaced
         bw0 = kw["sample_rate"] if cls in ("BasebandSignal", "DualPolarizationSignal") else conc.cbw[0] * conc.cbw[1]
         if abs(kw["center_freq"].to_value(u.Hz)) > 1e8 * bw0.to_value(u.Hz):
-            kw["center_freq"] = (bw0 * 1e6 * 1.4).to(u.Hz)
+            kw["center_freq"] = (bw0 * 1e7 * 1.4).to(kw["center_freq"].unit)     # keep the unit the user chose
         if conc.cf_factor is not None:
             bw1 = kw["sample_rate"] if cls in ("BasebandSignal", "DualPolarizationSignal") else conc.cbw[0] * conc.cbw[1]
             kw["center_freq"] = (bw1 * nchan * conc.cf_factor).to(conc.funit if conc.cf else u.MHz)
@@ -137,6 +190,8 @@ def build_root(root, conc):
             kw["chan_bw"] = conc.cbw[0] * conc.cbw[1]
     if cls == "DualPolarizationSignal":
         kw["pol_type"] = "linear"
+    if getattr(conc, "assign", False):
+        return by_assignment(lambda **k: CLASSES[cls](z, **k), kw)
     return CLASSES[cls](z, **kw)
 
 
